@@ -499,7 +499,20 @@ class ResultQuantifier(CanBehaveLikeAVariable[T], ABC):
         This is the exposed evaluation method for users.
         """
         SymbolGraph().remove_dead_instances()
+        self._reset_conclusion_deduplication_()
         yield from map(self._process_result_, self._evaluate__())
+
+    def _reset_conclusion_deduplication_(self):
+        """
+        The conclusion selectors of a rule tree remember for which bindings they already concluded something.
+        This memory belongs to one evaluation, a new evaluation has to start with an empty one.
+        """
+        for node in self._descendants_:
+            # not getattr: variables turn unknown attribute names into symbolic attributes
+            concluded_before = vars(node).get("concluded_before")
+            if isinstance(concluded_before, dict):
+                for seen_set in concluded_before.values():
+                    seen_set.clear()
 
     def _evaluate__(
         self,
